@@ -195,6 +195,9 @@ static auto valid_line(std::string const& ty, Line const& l, std::size_t cap, st
     if (ty == "ipv") {
         if (tryp) return has_nat("x");
         if (unch) return has_nat("x") && n < cap;
+        // the argument is element i of the object itself
+        if (op == "try_push_alias" || op == "try_emplace_alias") return has_nat("i") && nat("i") < n;
+        if (op == "unchecked_push_alias" || op == "unchecked_emplace_alias") return has_nat("i") && nat("i") < n && n < cap;
         if (op == "pop") return n > 0;
         if (op == "clear") return true;
         return false;
@@ -723,6 +726,11 @@ struct IpvRunner final : Runner {
         }
         if (op == "unchecked_push_rv") return ref(c.unchecked_push_back(mk<E>(l.i("x"))));
         if (op == "unchecked_emplace") return ref(c.unchecked_emplace_back(static_cast<int>(l.i("x"))));
+        auto elem = [&]() -> E const& { return std::as_const(c)[static_cast<std::size_t>(l.i("i"))]; };
+        if (op == "try_push_alias") return ptr(c.try_push_back(elem()));
+        if (op == "try_emplace_alias") return ptr(c.try_emplace_back(elem()));
+        if (op == "unchecked_push_alias") return ref(c.unchecked_push_back(elem()));
+        if (op == "unchecked_emplace_alias") return ref(c.unchecked_emplace_back(elem()));
         if (op == "pop") {
             c.pop_back();
             return "ok";
@@ -755,6 +763,15 @@ struct IpvRunner final : Runner {
         }
         if (op == "unchecked_push" || op == "unchecked_push_rv" || op == "unchecked_emplace") {
             c.push_back(mk<E>(l.i("x")));
+            return "ref=" + std::to_string(val(c.back()));
+        }
+        if (op == "try_push_alias" || op == "try_emplace_alias") {
+            if (c.size() == Cap) return "null";
+            c.push_back(c[static_cast<std::size_t>(l.i("i"))]);
+            return "ptr=" + std::to_string(val(c.back()));
+        }
+        if (op == "unchecked_push_alias" || op == "unchecked_emplace_alias") {
+            c.push_back(c[static_cast<std::size_t>(l.i("i"))]);
             return "ref=" + std::to_string(val(c.back()));
         }
         if (op == "pop") {
